@@ -26,6 +26,8 @@ DOC = {
  "C20.R6": "= C19.R2 (framing): every read of a frame payload is bounded by min(len - buf.len(), chunk) computed inside the loop",
  "C20.R7": "every control_protocol::Actor built from a local cell is behind supports_remoting() (filter upstream of the map, or the true edge for single cells): Join, Leave, the post-auth scans and the pid events agree",
  "C20.R8": "error discipline: no NodeSession handler propagates (`?`) the result of stop_and_wait / kill_and_wait / drain_and_wait on a proxy (a proxy that is already gone must not fail the session)",
+ "C20.R9": "the future of read_network_message is awaited directly, never through timeout/select (the reader is not cancellation safe)",
+ "C20.R10": "after_authenticated: no Spawn / PgJoin frame is sent after the Ready frame",
  "C20.R5": "delivery path is inline: every send_serialized of handle_node is executed in handle_node itself (none inside a spawned task); the proxy's handle_serialized and the session's send path spawn nothing",
 }
 
@@ -309,6 +311,57 @@ def r8(run, db):
     run.anchor("proxy stop sites in session handlers", n, 2)
 
 
+def r9(run, db):
+    """the frame reader is not cancellation safe (the consumed length prefix and the partial payload live only in its future), so
+    its future must be awaited to completion: polled directly, never through a timeout / select wrapper that can drop it
+    mid-frame (the rest of the payload would then be parsed as a length prefix)"""
+    n = 0
+    for f in db.crate_fns(RC):
+        if "::tests::" in f.id or "net/session" not in (f.file or ""):
+            continue
+        for c in f.calls():
+            if not (c.callee and c.callee.endswith("::read_network_message")):
+                continue
+            n += 1
+            aw = await_of_call(f, c)
+            direct = bool(aw)
+            wrapped = [x for x in f.calls() if x.matches(r"time::timeout$|time::timeout_at$|concurrency::\\w+::timeout$|future::select|select_biased|FutureExt::(fuse|now_or_never)$") and any(r["k"] == "call" and r["call"].bb == c.bb for a_ in x.args for r in f.origins(a_))]
+            run.check(direct and not wrapped, "frame-read-awaited-to-completion:%s" % f.id.split("::")[-2], "the frame read is awaited directly (never dropped mid-frame)",
+                      "the future of read_network_message is handed to %s instead of being awaited to completion: when it is dropped in the middle of a frame the consumed bytes are lost and the stream desynchronises (casts vanish, the session dies on a merely slow link)" % ([x.name.split("::")[-1] for x in wrapped] or "a wrapper"), c.where())
+    run.anchor("frame read sites", n, 1)
+
+
+def r10(run, db):
+    """`once a session is ready ... remote references join the same groups as the original`: the Ready control frame is the
+    last thing the initial synchronisation sends -- after the actor list and after every PgJoin of the existing groups"""
+    fs_ = [f for f in db.crate_fns(RC) if re.search(r"NodeSession::after_authenticated$", f.id)]
+    run.anchor("after_authenticated", len(fs_), 1)
+    for f in fs_:
+        run.saw(len(f.blocks), f)
+        def sites_of(variant_rx):
+            out = []
+            for site, st in f.aggregates():
+                a = (st["rv"].get("adt") or "")
+                v = st["rv"].get("variant") or ""
+                if a.endswith("control_message::Msg") and re.search(variant_rx, v):
+                    out.append(site)
+            return out
+        ready = sites_of(r"^Ready$")
+        sync = sites_of(r"^(PgJoin|Spawn)$")
+        # PgJoin frames may be built in closures (map over groups): their creation sites in f count
+        for g in db.children(f.id):
+            for site, st in g.aggregates():
+                if (st["rv"].get("adt") or "").endswith("control_message::Msg") and re.search(r"^(PgJoin|Spawn)$", st["rv"].get("variant") or ""):
+                    for par, csite, _ in creation_sites(db, g):
+                        if par.id == f.id:
+                            sync.append(csite)
+        run.anchor("Ready frame in after_authenticated", len(ready), 1, f.where())
+        run.anchor("Spawn/PgJoin frames in after_authenticated", len(sync), 2, f.where())
+        for r in ready:
+            late = [x for x in sync if f.reaches_after(r, x)]
+            run.check(not late, "ready-after-sync", "no Spawn / PgJoin frame can be sent after the Ready frame", "after_authenticated sends Ready before the group synchronisation: the peer reports the session ready while the remote references are still in none of their groups", f.where())
+
+
 Q = ["rc"]
 TH = ["rc", "rcatr"]
-RULES = [{"id": "C20.R%d" % i, "fn": f, "quick": Q, "thorough": TH} for i, f in enumerate([r1, r2, r3, r4, r5, r6, r7, r8], 1)]
+RULES = [{"id": "C20.R%d" % i, "fn": f, "quick": Q, "thorough": TH} for i, f in enumerate([r1, r2, r3, r4, r5, r6, r7, r8, r9, r10], 1)]
